@@ -283,6 +283,14 @@ def check(prop, tier, args):
             dx = (x.get('result') or {}).get('digest'), x.get('abnormal')
             dy = (y.get('result') or {}).get('digest'), y.get('abnormal')
             if dx != dy:
+                # Two executions of one seed that differ are a broken harness — unless one of them ran into a violation:
+                # a defect whose manifestation depends on something the simulator measures but cannot control (heap
+                # addresses in C18) may show in one execution and not in the other.  That is reported as the violation
+                # it is (below, by the exploration phase), not as a harness error.
+                vx = (x.get('result') or {}).get('violations') or x.get('abnormal')
+                vy = (y.get('result') or {}).get('violations') or y.get('abnormal')
+                if vx or vy:
+                    continue
                 mism.append((x['job'], dx, dy))
         if mism:
             print('HARNESS-ERROR nondeterministic runs: %r' % (mism[:3],))
